@@ -245,20 +245,20 @@ type Stage struct {
 	Sensors map[string]sensors.Sensor
 	Curves  map[string]curves.SpeedCurve
 
-	mu         sync.Mutex
-	actors     int
-	ActorErr   map[string]string // actor name → returned error ("" = nil)
-	ActorEnd   map[string]time.Duration
-	BootErr    error
-	Booted     bool
-	BootedAt   time.Duration
-	OnBooted   func(s *Stage) // called in the boot task once objects exist, before actors start
-	EndReason  string
+	mu        sync.Mutex
+	actors    int
+	ActorErr  map[string]string // actor name → returned error ("" = nil)
+	ActorEnd  map[string]time.Duration
+	BootErr   error
+	Booted    bool
+	BootedAt  time.Duration
+	OnBooted  func(s *Stage) // called in the boot task once objects exist, before actors start
+	EndReason string
 	// ExtraEnv lets a family define its own environment event kinds.
 	ExtraEnv func(e world.EnvEvent) func()
 	// HarnessDriven: a harness task started in OnBooted ends the run itself.
 	HarnessDriven bool
-	CancelledT time.Duration
+	CancelledT    time.Duration
 }
 
 // ResetGlobals clears process-wide state left behind by a previous run.
@@ -436,7 +436,18 @@ func (s *Stage) scheduleEnv() {
 		e := s.Sc.Env[i]
 		fn := s.envAction(e)
 		name := fmt.Sprintf("%s#%d", e.Kind, i)
-		if e.AtSeq > 0 {
+		if strings.HasPrefix(e.When, "cycle") {
+			// after every control cycle of the fan (cycle2: every other one), from e.At on: a third party
+			// (firmware in a semi-automatic mode, another daemon) that keeps overwriting the value
+			e, n := e, 0
+			s.K.WhenEvery(name, func(last *kernel.Event) bool {
+				if last == nil || last.Kind != "yield" || last.Site != "ctl.cycle.end" || last.ID != e.Fan || s.K.Now() < e.At.D() {
+					return false
+				}
+				n++
+				return e.When != "cycle2" || n%2 == 0
+			}, fn)
+		} else if e.AtSeq > 0 {
 			s.K.AtSeq(e.AtSeq, name, fn)
 		} else {
 			s.K.At(e.At.D(), name, fn)
